@@ -56,6 +56,14 @@ use std::borrow::Cow;
 #[derive(Encode)] struct BSliceB<'a> { #[n(0)] id: u8, #[b(1)] data: &'a [u8], #[b(2)] more: Option<&'a [u8]> }
 #[derive(Encode)] struct BSliceN<'a> { #[n(0)] id: u8, #[n(1)] data: &'a [u8], #[n(2)] more: Option<&'a [u8]> }
 
+/// `#[b(..)]` and `#[n(..)]` indices mixed in one array-encoded type (an index is its number, whichever letter it is written with)
+#[derive(Encode, Decode, CborLen, Debug, PartialEq)] struct MixBN<'a> { #[b(0)] name: &'a str, #[n(1)] age: u8, #[b(2)] nick: Option<&'a str>, #[n(3)] karma: Option<u32> }
+#[derive(Encode, Decode, CborLen, Debug, PartialEq)] enum MixE<'a> { #[n(0)] V { #[b(0)] name: &'a str, #[n(1)] age: u8, #[n(2)] flags: Option<u8> } }
+/// optional fields whose item is skipped (an unknown variant, a bare null at a tagged field) in front of further fields, in every framing
+#[derive(Encode, Decode, CborLen, Debug, PartialEq, Clone, Copy)] enum Kind { #[n(0)] Plain, #[n(1)] Fancy(#[n(0)] u8) }
+#[derive(Encode, Decode, CborLen, Debug, PartialEq)] struct SkipA { #[n(0)] kind: Option<Kind>, #[n(1)] seq: u8, #[n(2)] text: String, #[n(3)] last: Option<Kind> }
+#[derive(Encode, Decode, CborLen, Debug, PartialEq)] struct StampA { #[cbor(n(0), tag(1))] at: Option<u64>, #[n(1)] seq: u8, #[cbor(n(2), tag(2))] end: Option<u64> }
+
 /// a three-state user type: `Keep` is its nil value (left out by the derived encoder, filled in by `Decode::nil`), `Clear` is written as
 /// `null` — a present value, which only the type's own decoder can tell from a number
 #[derive(Debug, PartialEq, Clone, Copy)] enum Patch { Keep, Clear, Set(u8) }
@@ -179,6 +187,39 @@ pub fn run(w: &[&str]) -> String {
             let b = minicbor::to_vec(&BSliceB { id, data: &data, more: more.as_deref() }).ok()?;
             let n = minicbor::to_vec(&BSliceN { id, data: &data, more: more.as_deref() }).ok()?;
             format!("{} len={} dec={} pos={}", hex(&b), b.len(), hex(&n), b.len())
+        }
+        ("MixBN", [name, age, nick, karma]) => {
+            let (name, nick) = (String::from_utf8(unhex(name)?).ok()?, if *nick == "N" { None } else { Some(String::from_utf8(unhex(nick)?).ok()?) });
+            let v = MixBN { name: &name, age: age.parse().ok()?, nick: nick.as_deref(), karma: if *karma == "N" { None } else { Some(karma.parse().ok()?) } };
+            let n = minicbor::len(&v);
+            let b = minicbor::to_vec(&v).ok()?;
+            let mut d = minicbor::Decoder::new(&b);
+            match d.decode::<MixBN>() {
+                Ok(x) => format!("{} len={} dec={},{},{},{} pos={}", hex(&b), n, hex(x.name.as_bytes()), x.age, x.nick.map(|s| hex(s.as_bytes())).unwrap_or("N".into()), x.karma.map(|k| k.to_string()).unwrap_or("N".into()), d.position()),
+                Err(e) => format!("{} len={} dec=err:{} pos={}", hex(&b), n, dclass(&e), d.position())
+            }
+        }
+        ("MixE", [name, age, flags]) => {
+            let name = String::from_utf8(unhex(name)?).ok()?;
+            let v = MixE::V { name: &name, age: age.parse().ok()?, flags: if *flags == "N" { None } else { Some(flags.parse().ok()?) } };
+            let n = minicbor::len(&v);
+            let b = minicbor::to_vec(&v).ok()?;
+            let mut d = minicbor::Decoder::new(&b);
+            match d.decode::<MixE>() {
+                Ok(MixE::V { name, age, flags }) => format!("{} len={} dec={},{},{} pos={}", hex(&b), n, hex(name.as_bytes()), age, flags.map(|k| k.to_string()).unwrap_or("N".into()), d.position()),
+                Err(e) => format!("{} len={} dec=err:{} pos={}", hex(&b), n, dclass(&e), d.position())
+            }
+        }
+        // what the two types with skip paths make of the given bytes (written by a peer that knows more variants / leaves a tagged field out)
+        ("SkipRead", [which, h]) => {
+            let b = unhex(h)?;
+            let k = |k: &Option<Kind>| match k { None => "N".to_string(), Some(Kind::Plain) => "P".into(), Some(Kind::Fancy(n)) => format!("F{}", n) };
+            let o = |x: &Option<u64>| x.map(|v| v.to_string()).unwrap_or("N".into());
+            let mut d1 = minicbor::Decoder::new(&b);
+            let r1 = match d1.decode::<SkipA>() { Ok(x) => format!("{}:{}:{}:{}@{}", k(&x.kind), x.seq, hex(x.text.as_bytes()), k(&x.last), d1.position()), Err(e) => format!("err:{}", dclass(&e)) };
+            let mut d2 = minicbor::Decoder::new(&b);
+            let r2 = match d2.decode::<StampA>() { Ok(x) => format!("{}:{}:{}@{}", o(&x.at), x.seq, o(&x.end), d2.position()), Err(e) => format!("err:{}", dclass(&e)) };
+            format!("{} len=0 dec={} pos=0", hex(&b), if *which == "A" { r1 } else { r2 })
         }
         ("IoT", [k]) => { let v = match *k { "A" => IoT::A, "B" => IoT::B, _ => IoT::C }; rt(&v, |x| format!("{:?}", x)) }
         ("TrT", [n]) => rt(&TrT(n.parse().ok()?), |x| format!("{}", x.0)),
